@@ -13,9 +13,9 @@ DELIMITER = b'~~~'  # FIXME: delimiter could be part of regular message
 class Protocol(Component):
     __buffer = b''
     __nid = 0
-    __events = {}
 
     def init(self, sock=None, server=None, **kwargs):
+        self.__events = {}
         self.__server = server
         self.__sock = sock
         self.__receive_event_firewall = kwargs.get('receive_event_firewall', None)
